@@ -349,14 +349,33 @@ func rulePoolHeartbeat(c *Ctx, r *Rule) {
 				waits = append(waits, ci)
 			}
 			if f := calleeFunc(ci); f != nil && qualName(f) == "(*sync.Once).Do" {
-				if mc, ok := ci.Common().Args[1].(*ssa.MakeClosure); ok {
-					if cl, ok := mc.Fn.(*ssa.Function); ok {
-						for _, b := range cl.Blocks {
-							for _, in := range b.Instrs {
-								if g, ok := in.(*ssa.Go); ok && g.Call.StaticCallee() != nil {
-									hb = g.Call.StaticCallee()
-									onces = append(onces, ci)
-								}
+				// the started function: a literal, a named function, or a method value (bound wrapper -> method)
+				var starters []*ssa.Function
+				var follow func(g *ssa.Function, d int)
+				follow = func(g *ssa.Function, d int) {
+					if g == nil || g.Blocks == nil || d > 2 {
+						return
+					}
+					starters = append(starters, g)
+					if g.Synthetic != "" { // bound method wrapper / thunk: the method it calls
+						for _, cj := range callsIn(g) {
+							follow(cj.Common().StaticCallee(), d+1)
+						}
+					}
+				}
+				switch x := ci.Common().Args[1].(type) {
+				case *ssa.MakeClosure:
+					g, _ := x.Fn.(*ssa.Function)
+					follow(g, 0)
+				case *ssa.Function:
+					follow(x, 0)
+				}
+				for _, cl := range starters {
+					for _, b := range cl.Blocks {
+						for _, in := range b.Instrs {
+							if g, ok := in.(*ssa.Go); ok && g.Call.StaticCallee() != nil {
+								hb = g.Call.StaticCallee()
+								onces = append(onces, ci)
 							}
 						}
 					}
@@ -746,7 +765,12 @@ func ruleBlockedTimeout(c *Ctx, r *Rule) {
 	r.Ob(okRead, c.fnName(hb)+"|reads-blocked", hb.Pos(), "the heartbeat snapshots streamer.blocked under blockedMu")
 	// the unblock function's time-out test compares time.Since(blockTime) with eventTimeout and only then gives up
 	okT := false
-	for _, b := range unblock.Blocks {
+	var ubBlocks []*ssa.BasicBlock
+	ubBlocks = append(ubBlocks, unblock.Blocks...)
+	for _, a := range allAnon(unblock) {
+		ubBlocks = append(ubBlocks, a.Blocks...)
+	}
+	for _, b := range ubBlocks {
 		for _, in := range b.Instrs {
 			if bo, ok := in.(*ssa.BinOp); ok && (bo.Op == token.LSS || bo.Op == token.GEQ || bo.Op == token.GTR || bo.Op == token.LEQ) {
 				if isLoadOfField(stripConv(bo.Y), pipelinePkg, "streamer", "eventTimeout") || isLoadOfField(stripConv(bo.X), pipelinePkg, "streamer", "eventTimeout") {
